@@ -1681,7 +1681,9 @@ ExpressionEvaluator::format_interpolated_value(const TypedValue &value,
             }
             if (width > 0) {
                 if (zero_pad) {
-                    ss << std::setfill('0');
+                    // printf("%0Nf"): zeros go between the sign and the
+                    // digits, the width counts the sign
+                    ss << std::setfill('0') << std::internal;
                 }
                 ss << std::setw(width);
             }
@@ -1689,7 +1691,9 @@ ExpressionEvaluator::format_interpolated_value(const TypedValue &value,
         } else if (value.is_numeric_result) {
             long long_val = value.value;
             if (zero_pad && width > 0) {
-                ss << std::setfill('0') << std::setw(width);
+                // printf("%0Nd"): zeros go between the sign and the digits
+                // ("-0042", not "00-42"), the width counts the sign
+                ss << std::setfill('0') << std::internal << std::setw(width);
             } else if (width > 0) {
                 ss << std::setw(width);
             }
